@@ -198,13 +198,7 @@ def parse_summary(ctx, v, led=None):
     summ["parse_writes"] = other_writes
     allowed = {"minor_version"} if v == 3 else set()
     extra = other_writes - allowed
-    if extra:
-        raise AnalysisError(
-            "C04.model",
-            "parse_vector writes state the post-parse model does not cover: %s" % sorted(extra),
-            pv.node,
-            module,
-        )
+    summ["model_gap"] = sorted(extra)
 
     keys_tables = set()
     vals_tables = set()
